@@ -115,6 +115,13 @@ def step (s : State) (op : List String) : List (State × List Ev) :=
     else [settled { s with waiting := s.waiting ++ [call] } [] []]
   | ["setopt", _, "TTL", n] => [({ s with ttl := natOf n }, [Ev.res "ok"])]
   | ["setopt", _, "WRITEQ-LEN", n] => [({ s with sendQLen := natOf n }, [Ev.res "ok"])]
+  -- a fresh, empty receive queue of the new length.  STAR: receivers holding a message for the old queue discard it
+  -- and carry on (D20 repaired).  BUS: such a receiver leaves its loop and the peer is disconnected (known finding D6,
+  -- not modelled): the operation is only admitted while no receiver is holding a message
+  | ["setopt", _, "READQ-LEN", n] =>
+    if s.flavor.isStar then [settled { s with recvQ := [], recvCap := natOf n, blocked := [] } [Ev.res "ok"] []]
+    else if s.blocked.isEmpty then [settled { s with recvQ := [], recvCap := natOf n } [Ev.res "ok"] []]
+    else []
   | ["hold", p, v] => [({ s with pipes := modifyPipe s.pipes (natOf p) (fun x => { x with hold := v == "1" }) }, [])]
   | ["release", p, "ok"] =>
     match findPipe s.pipes (natOf p) with
@@ -127,7 +134,11 @@ def step (s : State) (op : List String) : List (State × List Ev) :=
   | ["close"] =>
     if s.closed then [(s, [Ev.res "closed"])] else
     let evs := s.waiting.map (fun c => (c, Ev.retErr c "closed"))
-    [({ s with closed := true, waiting := [] }, Ev.res "ok" :: sortByKey evs)]
+    -- STAR: a pipe receiver that is holding a message for a full queue sees the socket close, drops the message and
+    -- closes its pipe (BUS receivers only watch their own pipe)
+    let gone := if s.flavor.isStar then s.blocked.map (·.1) else []
+    let s1 := gone.foldl dropPipe s
+    [({ s1 with closed := true, waiting := [] }, Ev.res "ok" :: sortByKey (evs ++ gone.map (fun p => (p, Ev.closed p))))]
   | _ => []
 
 end Mesh
